@@ -746,7 +746,13 @@ class Interp:
         return None
 
     def ev_YieldFrom(self, n, fr):
-        for x in self.iterate(self.ev(n.value, fr), fr, n.value):
+        v = self.ev(n.value, fr)
+        if isinstance(v, Sym) and hasattr(v, "sym_yield_from"):
+            # a whole symbolic sequence passed on at once: one batch element (the value decides how it presents itself)
+            for x in v.sym_yield_from(self):
+                self.do_yield(fr, x)
+            return None
+        for x in self.iterate(v, fr, n.value):
             self.do_yield(fr, x)
         return None
 
